@@ -464,7 +464,7 @@ pub const fn relocation_type_from_raw(r_type: u32) -> Option<RelocationKindInfo>
         // GOT-relative data relocations
         object::elf::R_AARCH64_GOTREL64 => (
             RelocationKind::SymRelGotBase,
-            RelocationSize::ByteSize(4),
+            RelocationSize::ByteSize(8),
             None,
             AllowedRange::no_check(),
             1,
